@@ -361,7 +361,9 @@ ExecChecks ==
   IN <<
     <<(~c.dnc /\ dup # {}) => fresh = {}, "C03:duplicate-request-created-a-second-task">>,
     <<(~c.dnc /\ dup # {} /\ Line.first) =>
-        \E t \in dup : HasTask(Post, t.id) /\ Len(TaskOf(Post, t.id).ops) >= Len(t.ops) /\ Live(TaskOf(Post, t.id)),
+        \* (operations of the task whose no-waiter time-out is due are removed at the start of the section)
+        \E t \in dup : /\ HasTask(Post, t.id) /\ Live(TaskOf(Post, t.id))
+                        /\ Len(TaskOf(Post, t.id).ops) >= Cardinality({n \in Rng(t.ops) : HasOp(S, n) /\ OpOf(S, n) \notin DueOps}),
       "C03:duplicate-request-disturbed-the-existing-task">>,
     <<(c.dnc /\ cands # {} /\ Line.first) => fresh # {}, "C03:do-not-cache-request-was-merged">>,
     <<(dup = {} /\ cands # {} /\ Line.first) => Cardinality(fresh) = 1, "C05:request-with-matching-queue-not-accepted">>,
